@@ -16,7 +16,7 @@ ReadyCalls ==
   \cup {<<"init", e, "">> : e \in Elements}
   \cup {<<"init_all", "">>, <<"init_all", "mx">>}
   \cup {<<"step", e, "", "P1", "O0">> : e \in Stateful}
-  \cup {<<"add_later", "R2">>, <<"add_later", "L3">>}
+  \cup {<<"add_later", "R2">>, <<"add_later", "L3">>, <<"add_later", "D1">>}
   \cup {<<"compile", "sx">>, <<"compile", "mx">>}
   \cup {<<"use_inst", "mx_engine", "mx">>}
 EngineCalls ==
@@ -25,6 +25,7 @@ EngineCalls ==
   \cup {<<"net_step", k, "P1", "O0", "">> : k \in {"", "np", "sx", "mx"}}
   \cup {<<"init_all", k>> : k \in {"", "np", "mx"}}
   \cup {<<"init", e, k>> : e \in {"L1", "O1", "D1"}, k \in {"", "np", "mx"}}
+  \cup {<<"add_later", "D1">>}
   \cup {<<"step", e, k, "P1", "O0">> : e \in {"L2", "R1"}, k \in {"", "np", "sx", "mx"}}
 PureCalls ==
   {<<"net_step", k, p, o, v>> : k \in {"np", "sx"}, p \in {"P1"}, o \in {"O0", "O1"}, v \in {"V1", "V2"}}
@@ -32,7 +33,7 @@ PureCalls ==
   \cup {<<"compile", "sx">>, <<"compile", "mx">>}
   \cup {<<"init", e, "np">> : e \in {"L2", "O1"}}
   \cup {<<"step", e, "np", "P1", "O0">> : e \in {"L2", "R1"}}
-  \cup {<<"add_later", "R2">>}
+  \cup {<<"add_later", "R2">>, <<"add_later", "D1">>}
 Calls == CASE Profile = "ready" -> ReadyCalls [] Profile = "engine" -> EngineCalls [] Profile = "pure" -> PureCalls
 
 Init == S = Init0 /\ res = <<"init">> /\ hist = <<>>
@@ -48,12 +49,13 @@ Check ==
      /\ Assert(StepMakesReady(S, c, S'), <<"C19 StepMakesReady", hist'>>)
      /\ Assert(TouchUnreadies(S, c, S'), <<"C19 TouchUnreadies", hist'>>)
      /\ Assert(AddUnreadies(S, c, S'), <<"C19 AddUnreadies", hist'>>)
+     /\ Assert(AddDestUnreadies(S, c, S'), <<"C19 AddDestUnreadies", hist'>>)
      /\ Assert(UseSemantics(S, c, S', res'), <<"C13 UseSemantics", hist'>>)
      /\ Assert(ExplicitHonoured(S, c, S'), <<"C13 ExplicitHonoured", hist'>>)
 Emit == (EmitOn /\ Len(hist') <= MaxDepth) =>
           PrintT("TRANS " \o ToJson(
-            [h |-> hist', res |-> res', cur |-> S'.cur, la |-> S'.la, r |-> S'.r,
-             vars |-> [e \in InNet(S') |-> S'.vars[e]],
+            [h |-> hist', res |-> res', cur |-> S'.cur, la |-> S'.la, r |-> S'.r, dst |-> S'.dst,
+             vars |-> [e \in InNet(S') \cap Declaring |-> S'.vars[e]],
              nxt |-> [e \in InNet(S') \cap Stateful |-> IF S'.nxt[e].has THEN S'.nxt[e].kind ELSE ""],
              ready |-> Ready(S'), uniform |-> Uniform(S'),
              lastpar |-> IF S'.nxt["L2"].has THEN <<S'.nxt["L2"].par, S'.nxt["L2"].opts, S'.nxt["L2"].vals>> ELSE <<"", "", "">>]))
